@@ -179,20 +179,11 @@ def correspond(ctx, exe, n_specs, files=True):
         shutil.rmtree(tmp, ignore_errors=True)
 
 
-def _big_stack():
-    import resource
-    try: resource.setrlimit(resource.RLIMIT_STACK, (resource.RLIM_INFINITY, resource.RLIM_INFINITY))
-    except (ValueError, OSError):
-        soft, hard = resource.getrlimit(resource.RLIMIT_STACK)
-        try: resource.setrlimit(resource.RLIMIT_STACK, (hard, hard))
-        except (ValueError, OSError): pass
-
-
 def _drv_one(args):
     import subprocess
     exe, lines = args
-    p = subprocess.run([exe], input='\n'.join(lines) + '\n', stdout=subprocess.PIPE, stderr=subprocess.PIPE, text=True, timeout=3000,
-                       preexec_fn=_big_stack)
+    p = subprocess.run(['bash', '-c', 'ulimit -s unlimited 2>/dev/null || ulimit -s $(ulimit -H -s) 2>/dev/null; exec "$0"', exe],
+                       input='\n'.join(lines) + '\n', stdout=subprocess.PIPE, stderr=subprocess.PIPE, text=True, timeout=3000)
     if p.returncode != 0: raise RuntimeError('model driver failed: ' + p.stderr[-2000:])
     out = p.stdout.split('\n')
     if out and out[-1] == '': out.pop()
